@@ -1,6 +1,6 @@
 """Per-property manifest texts."""
 
-HOOK_COMMITS = ["74aefc2", "366111c"]
+HOOK_COMMITS = ["74aefc2", "366111c", "80265e4", "5f05837"]
 NOTES = "See DESIGN.md. exit 0 = held on everything explored, exit 1 = VIOLATION line, exit 2 = inconclusive (never a verdict)."
 DEFAULT_NA = "check under construction in this round (specification and harness for this property not yet committed); planned technique in DESIGN.md section 6"
 NOT_APPLICABLE = {}
@@ -22,6 +22,15 @@ _F_NOTE = ("stored logs of 5-7 blocks with forks and skip references, concurrenc
            "FetchDone/Process orders are forced, main-loop wake-ups are not controllable and run freely; fake store, TLC and the Json reader trusted")
 _F_TECH = "TLA+ spec Fetcher.tla/FetchOps.tla model-checked by TLC (safety + liveness); TLC schedules replayed on the real fetcher through a deterministic scheduler; observed traces validated by TLC against Trace_Fetcher.tla"
 
+_K_TEXT = ("TLC explores every interleaving of the calls' steps (a step = what the code does between two verif yield points: entry of each "
+           "public operation, Join between snapshotting the source and locking the destination) in LogConc.tla after every short sequential "
+           "setup history; each interleaving is imposed on real goroutines by the lock scheduler, the state of every log is projected "
+           "after each step and TLC validates steps and outcomes against the property predicates and the model's step structure")
+_K_NOTE = ("interleavings at yield-point granularity are forced exactly; interleavings inside a critical section are left to the race "
+           "detector runs (dynamic: races on the executions performed); a goroutine that neither parks nor returns within 0.4 s of its "
+           "release counts as blocked on a lock")
+_K_TECH = "TLA+ spec LogConc.tla model-checked by TLC (safety + liveness); TLC interleavings replayed on real goroutines through yield hooks; observed traces validated by TLC against Trace_LogConc.tla; Go race detector on the same operation combinations"
+
 CLAIMED = {
     "C01": dict(level="model_checking", text=_L_TEXT, note=_L_NOTE, technique=_L_TECH),
     "C02": dict(level="model_checking", text=_L_TEXT, note=_L_NOTE, technique=_L_TECH),
@@ -34,6 +43,12 @@ CLAIMED = {
     "C09": dict(level="model_checking", text=_F_TEXT + "; unlimited reload through the manifest, the JSON head list, the head entries and (single-headed logs) the head hash, compared with the original replica (id, entries, heads, linearised values)", note=_F_NOTE, technique=_F_TECH),
     "C10": dict(level="model_checking", text=_F_TEXT + "; every limit 0..size+1 for the four loaders; count and content (supplied entries plus the newest others) on every schedule", note=_F_NOTE, technique=_F_TECH),
     "C11": dict(level="model_checking", text=_F_TEXT + "; every single faulty block x {missing, error, undecodable} (pairs in the thorough tier), a never-answering block with a deadline fired at a TLC-chosen point, excluded and duplicate starting hashes; termination is a liveness property of the model under weak fairness and 'the call returns once everything parked is released' on the real code; real-time runs with the loader's own Timeout option", note=_F_NOTE, technique=_F_TECH),
+    "C13": dict(level="model_checking",
+                text=_K_TEXT + "; one log shared by 2-3 concurrently issued calls drawn from appends, merges in, every read accessor, identity change and manifest publication; checked: all calls return, appends appear exactly once and form one chain respecting real-time order, every value a read returned and every observed state is structurally sound; data races: the same operation combinations (plus a failing multi-candidate join and a size-bounded join against the readers) free-running under the Go race detector",
+                note=_K_NOTE, technique=_K_TECH),
+    "C14": dict(level="model_checking",
+                text=_K_TEXT + "; merges from a log that is concurrently appended to, merged into and merging back (2 logs, and 3 logs merging in a cycle); checked: every merge returns, its result is the union of the destination with a state the source was observed in between call and return, heads are entries and maximal",
+                note=_K_NOTE, technique=_K_TECH),
     "C15": dict(level="model_checking",
                 text=_L_TEXT + "; the Iterator option space of the property's quantifier (0-2 inclusive upper bounds related or not, one exclusive, unknown ones, every lower bound in range, every amount 0..size+1) is enumerated by TLC per reachable log",
                 note=_L_NOTE, technique=_L_TECH),
